@@ -184,6 +184,36 @@ def obligations(tier):
         claim="findname/findip/findmx from any walker state: every read lies inside the response buffer; result in {0,1,2,DNS_SOFT}",
         expect_witnesses=["no_more_answers", "record_found", "record_claims_data_beyond_response", "other_type_skipped",
                           "soft_position_beyond_end", "soft_truncated_record"]))
+    # ---------------------------------------------------------------- (g) numbers, addresses, dates
+    FS = ["scan_ulong.c", "ip.c", "fmt_ulong.c", "fmt_uint.c", "fmt_uint0.c", "fmt_str.c", "date822fmt.c", "datetime.c"]
+    obls.append(Obl("scan_ip", "fmtscan.c", repo=FS, defines={"KIND": 0},
+        grid=[{"S": n} for n in ((0, 3, 7, 9) if quick else range(0, 12))],
+        unwind_default=lambda p: p["S"] + 3, timeout=600,
+        functions=["scan_ulong.c:scan_ulong", "ip.c:ip_scan", "ip.c:ip_scanbracket"],
+        assumes=["any NUL-terminated string of exactly S bytes (grid) in an exactly-sized block"], outside=["longer strings"],
+        claim="scan_ulong/ip_scan/ip_scanbracket never read behind the terminating NUL and return an index inside the string",
+        expect_witnesses=lambda p: ["scanned"] + (["all_digits"] if p["S"] else []) + (["ip_accepted"] if p["S"] >= 7 else [])
+        + (["bracketed_ip_accepted"] if p["S"] >= 9 else [])))
+    obls.append(Obl("fmt_ulong_all", "fmtscan.c", repo=FS, defines={"KIND": 1}, unwind={"fmt_ulong": 21}, unwind_default=22,
+        timeout=900, backend="cadical",
+        functions=["fmt_ulong.c:fmt_ulong"], assumes=["every 64-bit value"],
+        claim="fmt_ulong announces 1..20 bytes (< FMT_ULONG), writes exactly that many, and they are the decimal digits of the value",
+        expect_witnesses=["formatted", "twenty_digits", "zero"]))
+    obls.append(Obl("fmt_uint0", "fmtscan.c", repo=FS, defines={"KIND": 2}, unwind={"fmt_ulong": 7, "fmt_uint0": 9}, unwind_default=10,
+        timeout=600, backend="cadical",
+        functions=["fmt_uint0.c:fmt_uint0", "fmt_uint.c:fmt_uint"], assumes=["u < 10^6, field width n <= 8"], outside=["larger values / widths"],
+        claim="fmt_uint0 returns max(digits,n) and writes exactly that many bytes, zero padded",
+        expect_witnesses=["formatted", "padded", "longer_than_field"]))
+    obls.append(Obl("datetime_ranges", "fmtscan.c", repo=FS, defines={"KIND": 3}, unwind_default=3, timeout=900, backend="cadical",
+        functions=["datetime.c:datetime_tai"], assumes=["0 <= t < 2^40 seconds"], outside=["negative times, t >= 2^40 (int day counter)"],
+        claim="datetime_tai yields hour 0..23, min/sec 0..59, mon 0..11, mday 1..31, wday 0..6 for every t in 0..2^40-1",
+        expect_witnesses=["converted", "feb_29", "last_second_of_a_year", "epoch"]))
+    obls.append(Obl("date822fmt_len", "fmtscan.c", repo=FS, defines={"KIND": 4}, unwind={"fmt_ulong": 5, "fmt_uint0": 3, "fmt_str": 9},
+        unwind_default=10, timeout=900, backend="cadical",
+        functions=["date822fmt.c:date822fmt"], assumes=["fields inside the ranges proved by datetime_ranges, year <= 9999"],
+        outside=["years after 9999"],
+        claim="date822fmt returns 25..27 <= DATE822FMT, the same with and without buffer, and writes exactly that many bytes",
+        expect_witnesses=["formatted", "one_digit_day"]))
     # ---------------------------------------------------------------- spawner reports
     for prog_no, prog in ((0, "qmail-rspawn.c"), (1, "qmail-lspawn.c")):
         obls.append(Obl(
